@@ -45,6 +45,50 @@ CHECKS = {
         note="Trusted: Coq kernel, correspondence harness, parser stand-in, scalar translator; directive "
              "argument positions use the same coerce_arguments code path and are exercised by C13's check.",
         design="4 C05"),
+    "C01": dict(
+        technique="Coq theorems (CollectFields refinement, key uniqueness/order/merging) + spec-executor verdict "
+                  "and differential correspondence on the real engine",
+        text="Proved for all schemas/documents/variables: the engine's accumulator-passing collect_fields (shared "
+             "ordered dict + visited-fragment set) computes the grouping of the specification's CollectFields "
+             "traversal; response keys appear once, in first-appearance order, each holding exactly the fields "
+             "selecting it. The hand-written implementation model of the whole executor (collect, execute_fields, "
+             "resolve_field, output coercer chain, abstract type resolution, default resolvers) is run against the "
+             "real engine on generated requests (aliases, repeated keys, fragment DAGs with sharing, type "
+             "conditions, @skip/@include, variables, three ways of naming the runtime type) and compared inside Coq "
+             "on data, errors and the resolver call log (path, parent type, field, parent value, coerced args); "
+             "each observation is judged by a second, specification-style executor (spec_execute_operation). "
+             "PARTIAL: impl-model = spec-executor is checked per run, not yet proved for all inputs.",
+        note="Trusted: Coq kernel, correspondence harness + generators, parser stand-in; directive hooks other than "
+             "@skip/@include absent (C13); errors and call log compared as multisets; message texts not compared.",
+        design="4 C01"),
+    "C02": dict(
+        technique="Coq invariants by induction over the execution model + exhaustive single-fault enumeration "
+                  "against the specification executor on the real engine",
+        text="Proved for every user code (oracles may return or raise anything), schema, document, configuration: "
+             "errors is append-only; every error recorded while the field at path p is resolved/completed is located "
+             "at or below p (list indices included); raised exception lists are non-empty and located below p; a "
+             "nullable field never raises and a failed one becomes null with >=1 error; a failed non-null field "
+             "propagates; execute never raises; data:null always has an error. The check fails every resolver call "
+             "site of fault-free runs in turn with 7 failure kinds and verifies on the engine's response: data equals "
+             "the specification executor's (null propagation to the nearest nullable ancestor, nothing else changes), "
+             "every failure origin is reported, no error points elsewhere, every error path leads to a null. "
+             "PARTIAL: the global null-propagation equation is decided per run, not proved for all inputs.",
+        note="Trusted: as C01; exceptions that are not Exception subclasses and user exceptions pre-setting their own "
+             "path are outside the model.",
+        design="4 C02"),
+    "C03": dict(
+        technique="Coq proof of conformance by induction over the execution model (all resolver outputs) + adversarial "
+                  "correspondence",
+        text="Theorem C03_data_conforms / C03_field_value_conforms: for EVERY resolver and type-resolver oracle over the "
+             "whole Python value universe (wrong kinds, NaN/inf/huge numbers, numeric strings, opaque objects, "
+             "exception instances, unknown runtime types; returning or raising), non-null data conforms: exactly the "
+             "collected response keys of a possible object type, lists where declared, no null at non-null, leaves "
+             "produced by the scalar serialiser (built-ins: C10 wire theorems) or declared enum values; execute never "
+             "raises. The model is tied to /repo by running generated requests with adversarial resolver data (rate "
+             "0.3) through the real engine; each response is also checked structurally (confb) and for JSON "
+             "serialisability.",
+        note="Trusted: as C01. Numeric types outside the stated universe (Decimal, Fraction, numpy) are not generated.",
+        design="4 C03"),
 }
 
 NOT_YET = {
